@@ -53,7 +53,8 @@ theorem GenH.next_eq (hash : β → Nat) (d : HRec β) (m : HImage β) (b nd : N
   unfold GenH.next
   simp only [forIn, GenH.capacity_eq']
   by_cases hb : b ≤ m.hdr.cap % 4294967296
-  · simp only [hb, if_true]
+  · -- (the source may test `bucket <= capacity` or return early on `capacity < bucket`)
+    simp only [hb, Nat.not_lt.mpr hb, if_true, if_false]
     rw [Fuel.forIn_eq_of_opt _ (GenH.skipSt d m (m.hdr.cap % 4294967296)) (fun s => rfl)]
     · simp only [Option.bind_eq_bind, Option.bind_some]
       cases (GenH.skipSt d m (m.hdr.cap % 4294967296) (m.recs.length + 1) (none, b, nd, false)).1 with
@@ -72,7 +73,7 @@ theorem GenH.next_eq (hash : β → Nat) (d : HRec β) (m : HImage β) (b nd : N
         · simp only [h0, hc, not_true_eq_false, if_true, if_false]; rfl
         · simp only [h0, hc, not_true_eq_false, if_false]; rfl
       · simp only [h0, not_false_eq_true, if_true]; rfl
-  · simp only [hb, if_false]; rfl
+  · simp only [hb, Nat.lt_of_not_le hb, if_false, if_true]; rfl
 
 /-- The skip loop leaves at once, by its condition, from a state with `node ≠ SENTINEL` (given any fuel at all). -/
 theorem GenH.skipSt_ne (d : HRec β) (m : HImage β) (cap n b nd : Nat) (ex : Bool) (h : nd ≠ 0) :
